@@ -35,3 +35,8 @@ package xpub
 //@ func (*socket).RecvMsg
 //@   modifies none
 //@   ensures result0 == nil && result1 == protocol.ErrProtoOp
+//@
+//@ func (*socket).Close
+//@   ghost was = s.closed at call:Lock#1
+//@   ensures was ==> result == protocol.ErrClosed
+//@   ensures !was ==> isnil(result) && s.closed
